@@ -406,7 +406,7 @@ class World:
             tx = self.root_tx(int(w[1]))
             if tx is None:
                 return 'na', None
-            c0, c1 = ({'l': list, 't': tuple}[x] for x in w[3])
+            c0, c1 = ({'l': list, 't': tuple, 'L': MyList, 'T': MyTuple}[x] for x in w[3])
             tx.wit = C.CTxWitness(c0(C.CTxInWitness(SC.CScriptWitness(c1(st))) for st in p_wit(w[2])))
             return 'done', None
         if k == 'newtxd':
@@ -905,7 +905,7 @@ class Gen:
                                                             r.choice(('-', self.tx_part(('wit',)))), r.choice('gn')),
                              dict(kind='tx', mut=False, nin=a['nin'], nout=b['nout']))
         if e == 'setwitc':
-            return self.emit('setwitc %d %s %s' % (t, s_wit(self.witness(rt['nin'])), r.choice(('ll', 'lt', 'tl', 'tt'))))
+            return self.emit('setwitc %d %s %s' % (t, s_wit(self.witness(rt['nin'])), r.choice(('ll', 'lt', 'tl', 'tt', 'LL', 'Lt', 'TL', 'lT', 'LT'))))
         if e == 'setref-vin':
             src = self.tx_part(('vin',))
             o = self.roots[int(src.split('.')[0])]
@@ -1074,7 +1074,7 @@ def directed(rng, pool, which):
         g.emit('hash %d' % s1)
         g.emit('wlapp %d.2 %s' % (r.choice((a, s1)), s_wit([st[:1]])))
         g.emit('mcopy %d' % s1, dict(g.roots[a], mut=True))
-        g.emit('setwitc %d %s %s' % (a, s_wit([[b'\x01', b'\x02']] * nin), r.choice(('ll', 'lt', 'tl', 'tt'))))
+        g.emit('setwitc %d %s %s' % (a, s_wit([[b'\x01', b'\x02']] * nin), r.choice(('ll', 'lt', 'tl', 'tt', 'LL', 'Lt', 'tL', 'TT'))))
         s2 = g.emit('snap %d' % a, dict(g.roots[a], mut=False))
         g.emit('stset %d.2.0.0 %d %s' % (r.choice((a, s2)), r.randrange(2), hx(g.script())))
         g.emit('stapp %d.2.0.%d %s' % (a, r.randrange(nin), hx(g.script())))
